@@ -50,7 +50,11 @@ def optsets_for(prop):
         d = dict(T.OPTS_QUICK)
         d.update(extra)
         return d
-    return {k: T.OPTS_QUICK[k] for k in names}
+    d = {k: T.OPTS_QUICK[k] for k in names}
+    if prop == "C10":
+        # early advance (yield) + strict done tokens + merged transitions is a code path of its own (F-10c was found there)
+        d["O3-strict-indirect"] = ["-O3", "-fstrict-done-token-generation", "-findirect-start-ptr"]
+    return d
 
 
 def programs_for(prop):
